@@ -376,6 +376,9 @@ func c20RunTask(t c20Task, depth int, lines *[]string) (uint64, int) {
 	n := 0
 	var dfs func(hist []model.Op)
 	dfs = func(hist []model.Op) {
+		if pastDeadline() {
+			return
+		}
 		d, succ, _ := runTrace(t.cfg, t.prelude, hist, c20Alphabet, false)
 		n++
 		h.add(strconv.FormatUint(d, 16))
@@ -461,6 +464,7 @@ func init() {
 			r.Cases += n
 		}
 		r.Steps = r.Cases * (depth + 2)
+		r.Truncated = pastDeadline()
 		return r
 	}
 
@@ -501,6 +505,9 @@ func init() {
 				if e != nil {
 					return e
 				}
+			}
+			for i := range tags {
+				noteTruncated(rep, "C20", all[i]...)
 			}
 			for i, tg := range tags {
 				// merge shards: digests are "k:hash" for subtree k
